@@ -444,16 +444,16 @@ def _judge_chunk(ctx, trace_module, chunk, lo, timeout, workers):
     return bodies
 
 
-def validate_fast(ctx, trace_module, records, *, batch=10000, timeout=3600, parallel=4):
+def validate_fast(ctx, trace_module, records, *, batch=None, timeout=3600, parallel=4):
     """Have TLC judge every record (verdicts are TLC's; tabulation by Ctx._tabulate as in Ctx.validate).
     TLC loads a trace file single-threaded, so several TLC processes run side by side on slices of the batch."""
     from concurrent.futures import ThreadPoolExecutor
-    for k, r in enumerate(records):
-        r["id"] = k + 1
+    if not batch:       # at least `parallel` slices, at most 10000 records each
+        batch = max(100, min(10000, (len(records) + parallel - 1) // parallel))
     slices = [(lo, records[lo:lo + batch]) for lo in range(0, len(records), batch)]
     par = max(1, min(parallel, len(slices), NCPU // 2))
     workers = max(2, NCPU // par)
-    for lo, chunk in slices:            # ids restart in every slice (the spec indexes the slice)
+    for lo, chunk in slices:
         for k, r in enumerate(chunk):
             r["id"] = lo + k + 1
     with ThreadPoolExecutor(par) as ex:
